@@ -226,7 +226,7 @@ fn prefix_contiguity_bytes<const LA: usize, const LB: usize>(t: &[u8]) {
     };
     assert!(cmp_bytes(ks.as_bytes(), ext.as_bytes()) == Ordering::Less, "extension sorts after its prefix");
     assert!(cmp_bytes(ext.as_bytes(), ks2.as_bytes()) == Ordering::Less, "extension sorts before every larger prefix");
-    vcover!(LA < LB, "s is shorter than s'");
+    vcover!(LA >= LB || cmp_bytes(&s, &s2[..LA]) == Ordering::Equal, "s is a proper prefix of s'");
     core::mem::forget(ks);
     core::mem::forget(ks2);
     core::mem::forget(ext);
@@ -291,7 +291,27 @@ harness!(decode_total_0, 1, |t| { decode_total::<0>(t) });
 harness!(decode_total_1, 2, |t| { decode_total::<1>(t) });
 harness!(decode_total_2, 3, |t| { decode_total::<2>(t) });
 harness!(decode_total_4, 5, |t| { decode_total::<4>(t) });
-harness!(decode_total_9, 10, |t| { decode_total::<9>(t) });
+harness!(decode_total_6, 7, |t| { decode_total::<6>(t) });
+/// integer decoders on a full-width (tag + 8 bytes) arbitrary input
+harness!(decode_ints_9, 10, |t| {
+    let mut t = Tape::new(t);
+    let raw: [u8; 9] = t.arr();
+    let signed = t.bool();
+    let mut p = TupleKeyParser::new(&raw);
+    if signed {
+        if let Ok(v) = p.i64() {
+            let k = TupleKey::builder().i64(v).build();
+            assert!(cmp_bytes(k.as_bytes(), &raw[..p.offset()]) == Ordering::Equal, "accepted i64 is canonical");
+            core::mem::forget(k);
+        }
+    } else if let Ok(v) = p.u64() {
+        let k = TupleKey::builder().u64(v).build();
+        assert!(cmp_bytes(k.as_bytes(), &raw[..p.offset()]) == Ordering::Equal, "accepted u64 is canonical");
+        core::mem::forget(k);
+    }
+    assert!(p.offset() <= 9, "parser never runs past the input");
+    vcover!(p.offset() == 9, "full-width integer consumed");
+});
 
 harness_list!(
     u64_order_rt, i64_order_rt, u32_order_rt, i32_order_rt, u16_order_rt, i16_order_rt, u8_order_rt, i8_order_rt,
@@ -299,5 +319,5 @@ harness_list!(
     string_2_2, tuple_u64_bytes1, tuple_u64_bytes2, tuple_bytes1_2_i64, tuple_bytes2_2_i64, tuple_bytes0_1_i64,
     tuple_i64_u64, tuple_unit_i32,
     prefix_contiguity_u64, prefix_contiguity_bytes_1_2, prefix_contiguity_bytes_2_2, prefix_contiguity_bytes_0_1,
-    decode_total_0, decode_total_1, decode_total_2, decode_total_4, decode_total_9,
+    decode_total_0, decode_total_1, decode_total_2, decode_total_4, decode_total_6, decode_ints_9,
 );
